@@ -1185,16 +1185,12 @@ def setE (d : DB) (e : Bool) : DB := { d with eager := e }
 theorem memput_setE (d : DB) (e : Bool) (k : Key) (r : Rec) : memput (setE d e) k r = setE (memput d k r) e := by
   unfold memput setE
   dsimp only
-  cases ilookup k d.index <;> cases hv : d.volatile <;>
-    simp only [hv, Bool.false_eq_true, ↓reduceIte] <;> split <;> rfl
+  cases ilookup k d.index <;> dsimp only <;> (repeat' split) <;> rfl
 
 theorem memdel_setE (d : DB) (e : Bool) (k : Key) : memdel (setE d e) k = setE (memdel d k) e := by
   unfold memdel setE
   dsimp only
-  cases ilookup k d.index with
-  | none => rfl
-  | some p =>
-    cases hv : d.volatile <;> simp only [hv, Bool.false_eq_true, ↓reduceIte]
+  cases ilookup k d.index <;> dsimp only <;> (repeat' split) <;> rfl
 
 theorem memputAll_setE (recs : List (Key × Rec)) (d : DB) (e : Bool) :
     memputAll (setE d e) recs = setE (memputAll d recs) e := by
@@ -1300,5 +1296,74 @@ theorem loadFold_sub (l : List (Key × Rec)) (hn : NoData l) (d : DB) (hf : d.fa
       refine ⟨(kr.1, loadedRec d.fs kr.2) :: l',
         by simp only [List.foldl_cons, hstep, e1, List.append_assoc, List.singleton_append], ?_⟩
       exact ⟨rfl, Sub.refl _, e2⟩
+
+theorem subL_loaded (fs : FS) (l : List (Key × Rec)) (h : NoData l) : SubL l (mapV (loadedRec fs) l) := by
+  induction l with
+  | nil => trivial
+  | cons x t ih =>
+    obtain ⟨k, r⟩ := x
+    refine ⟨rfl, Or.inr ?_, ih (fun kr hkr => h kr (List.mem_cons_of_mem _ hkr))⟩
+    have hd : r.data = none := h (k, r) List.mem_cons_self
+    unfold loadedRec
+    cases r
+    simp only at hd
+    simp [hd]
+
+/-- NewDBExt of the real store (any LoadData, any ghost field) against NewDBExt(LoadData) of the eager ghost -/
+theorem open_lz (F : FS) (vol load : Bool) (opts : Opts) (ea : Bool) (h : OpenOK true F) :
+    Lz [] (openDB F vol load opts ea) (openDB F vol true opts true) := by
+  have key : ∀ (F' : FS) (S : OpenState F' vol (openIndex { fs := F, volatile := vol, opts := opts, eager := true }))
+      (hR : DirReadable true F'), Lz [] (openDB F vol load opts ea) (openDB F vol true opts true) := by
+    intro F' S hR
+    have hXe : (openIndex { fs := F, volatile := vol, opts := opts, eager := true }).eager = true :=
+      openIndex_eager F vol opts
+    have hXa : openIndex { fs := F, volatile := vol, opts := opts, eager := ea } =
+        setE (openIndex { fs := F, volatile := vol, opts := opts, eager := true }) ea :=
+      openIndex_setE { fs := F, volatile := vol, opts := opts, eager := true } ea
+    generalize openIndex { fs := F, volatile := vol, opts := opts, eager := true } = X at S hXe hXa
+    have hload := loadAll_of_openState F' vol X S hR hXe
+    have eg2 : openDB F vol true opts true =
+        { X with index := mapV (loadedRec X.fs) (diskIndex F'), dataSeq := u32 (X.maxSeq + 1) } := by
+      unfold openDB
+      simp only [↓reduceIte]
+      rw [hload]
+    have hreads : ∀ kr ∈ diskIndex F', ∃ f v, dlookup kr.2.seq (setE X ea).fs.dats = some f ∧ ReadsBack f kr.2 v := by
+      intro kr hkr
+      obtain ⟨_, f, v, h3, h4⟩ := hR kr hkr
+      exact ⟨f, v, by show dlookup kr.2.seq X.fs.dats = _; rw [S.dats kr hkr]; exact h3, h4⟩
+    rw [eg2]
+    cases load with
+    | false =>
+      have ea2 : openDB F vol false opts ea = { setE X ea with dataSeq := u32 (X.maxSeq + 1) } := by
+        unfold openDB
+        simp only [Bool.false_eq_true, ↓reduceIte]
+        rw [hXa]
+        rfl
+      rw [ea2]
+      refine ⟨rfl, ?_, fun _ _ _ _ => List.not_mem_nil, fun _ _ _ _ => List.not_mem_nil, hXe⟩
+      show SubL X.index _
+      rw [S.index]
+      exact subL_loaded X.fs _ (diskIndex_noData F')
+    | true =>
+      obtain ⟨l', e1, e2⟩ := loadFold_sub (diskIndex F') (diskIndex_noData F') (setE X ea) S.failed hreads []
+      have ea2 : openDB F vol true opts ea = { setE X ea with index := l', dataSeq := u32 (X.maxSeq + 1) } := by
+        unfold openDB
+        simp only [↓reduceIte]
+        rw [hXa]
+        unfold loadAll
+        have hi : (setE X ea).index = diskIndex F' := S.index
+        rw [hi, e1]
+        have hf : (setE X ea).failed = none := S.failed
+        simp only [hf, List.nil_append]
+        rfl
+      rw [ea2]
+      exact ⟨rfl, e2, fun _ _ _ _ => List.not_mem_nil, fun _ _ _ _ => List.not_mem_nil, hXe⟩
+  rcases h.log with ⟨E, hE, hlog⟩ | hd
+  · exact key F (open_state F vol opts E hE hlog h.ver) h.readable
+  · have hR : DirReadable true (noLog F) := by
+      intro kr hkr
+      rw [diskIndex_noLog F hd] at hkr
+      exact h.readable kr hkr
+    exact key (noLog F) (open_state_discard F vol opts hd) hR
 
 end GocoinV.Proofs.C19
